@@ -1,0 +1,12 @@
+//go:build verif
+
+package packet
+
+// VerifList returns a copy of the address set in list order (verification harness only).
+func (s *AddrList) VerifList() []Addr {
+	out := make([]Addr, 0, len(s.list))
+	for _, a := range s.list {
+		out = append(out, Addr{MAC: CopyMAC(a.MAC), IP: a.IP, Port: a.Port})
+	}
+	return out
+}
